@@ -108,6 +108,179 @@ Definition closedb (root : string) (m : pmod) : bool :=
 Definition path_closedb (root : string) (m : pmod) (t : pty) : bool :=
   pty_ok t && forallb (fun ls : bool * list (string * list pty) => if fst ls then true else path_resolves root m (snd ls)) (pty_paths t).
 
+(** ** C02: sizedness.  "Every cycle between generated types passes through heap indirection":
+    the by-value graph of the parsed module has no cycle.  Item A has an edge to item B when a
+    field (struct field or variant field) of A mentions B by value, i.e. not underneath one of the
+    alloc-rooted heap types [Vec], [Box], [String], [collections::{BTreeMap, BTreeSet, BinaryHeap,
+    VecDeque, LinkedList}].  Tuples, arrays, [Option], [Result], [Range], [RangeInclusive], [Cow]
+    (holds [T::Owned] by value) and the configured [Compact<..>] wrapper are transparent;
+    [PhantomData] is zero sized (no edge); every other absolute or foreign path (substitutes, the
+    bits wrapper, unknown crates) is opaque (no edge).  For a generated generic item [Foo<A, B>] by
+    value there is an edge to [Foo], and to what [A] mentions by value iff the first declared
+    generic of [Foo] is itself stored by value somewhere in [Foo] ("exposed"; least fixpoint over
+    all items, so [Wrapper<T>(Vec<T>)] does not expose [T] and  struct N { kids: Wrapper<N> }  is
+    sized, while  struct A<T> { x: T }  struct B { a: A<B> }  is not). *)
+Inductive bv_atom := BVParam (n : string) | BVItem (p : list string).
+
+Definition heap_heads : list (list string) :=
+  [["vec"; "Vec"]; ["boxed"; "Box"]; ["string"; "String"];
+   ["collections"; "BTreeMap"]; ["collections"; "BTreeSet"]; ["collections"; "BinaryHeap"];
+   ["collections"; "VecDeque"]; ["collections"; "LinkedList"]].
+
+Fixpoint map_pitems (f : pitem -> pitem) (m : pmod) : pmod :=
+  match m with
+  | PMod n u mods items =>
+      PMod n u ((fix go (ms : list pmod) : list pmod :=
+                   match ms with [] => [] | c :: ms' => map_pitems f c :: go ms' end) mods)
+           (map f items)
+  end.
+
+Section Sized.
+  Variable root : string.
+  Variable alloc : list string.            (* names of the alloc crate path *)
+  Variable compact : option (list string). (* names of the Compact wrapper path *)
+  Variable cut_heap : bool.                (* true: heap types cut the graph (the checker); false:
+                                              they are transparent as well (hit counter: is there
+                                              any recursion at all?) *)
+  Variable m : pmod.
+
+  Definition names_eqb : list string -> list string -> bool := list_eqb String.eqb.
+  Definition is_heap_head (names : list string) : bool :=
+    existsb (fun h => names_eqb names (alloc ++ h)) heap_heads.
+  Definition is_transparent_head (names : list string) : bool :=
+    existsb (names_eqb names)
+            [["core"; "option"; "Option"]; ["core"; "result"; "Result"]; ["core"; "ops"; "Range"];
+             ["core"; "ops"; "RangeInclusive"]; alloc ++ ["borrow"; "Cow"]].
+  Definition is_compact_head (names : list string) : bool :=
+    match compact with Some c => names_eqb names c | None => false end.
+
+  (** [mx]: the module with the names of the NON-exposed generics of every item blanked out
+      (positions kept): the exposure table, looked up through the module tree *)
+  Fixpoint byval (mx : pmod) (t : pty) : list bv_atom :=
+    match t with
+    | PPath leading segs =>
+        let names := map fst segs in
+        let per_seg :=
+          (fix go (x : list (string * list pty)) : list (list (list bv_atom)) :=
+             match x with
+             | [] => []
+             | (_, aa) :: x' =>
+                 (fix go2 (p : list pty) : list (list bv_atom) :=
+                    match p with [] => [] | u :: p' => byval mx u :: go2 p' end) aa :: go x'
+             end) segs in
+        let last_args := last per_seg [] in
+        let all_args := List.concat (List.concat per_seg) in
+        if leading then
+          if is_heap_head names then (if cut_heap then [] else all_args)
+          else if is_transparent_head names then all_args
+          else if is_compact_head names then all_args
+          else []
+        else
+          match segs with
+          | [(n, [])] => [BVParam n]
+          | _ =>
+              match names with
+              | r0 :: p =>
+                  if String.eqb r0 root then
+                    match p with
+                    | [] => []
+                    | _ =>
+                        BVItem p ::
+                        match lookup_item mx p with
+                        | Some it =>
+                            List.concat (map (fun ga : string * list bv_atom =>
+                                           if String.eqb (fst ga) "" then [] else snd ga)
+                                        (combine (pi_generics it) last_args))
+                        | None => all_args
+                        end
+                    end
+                  else if is_compact_head names then all_args
+                  else []
+              | [] => []
+              end
+          end
+    | PTuple xs =>
+        (fix go2 (p : list pty) : list bv_atom :=
+           match p with [] => [] | u :: p' => byval mx u ++ go2 p' end) xs
+    | PArray x _ => byval mx x
+    | PBad => []
+    end.
+
+  Definition item_atoms (mx : pmod) (it : pitem) : list bv_atom :=
+    List.concat (map (byval mx) (item_field_types it)).
+
+  Definition mask_item (mx : pmod) (it : pitem) : pitem :=
+    let atoms := item_atoms mx it in
+    mk_pitem (pi_attrs it) (pi_is_enum it) (pi_name it)
+             (map (fun g => if existsb (fun a => match a with BVParam n => String.eqb n g | BVItem _ => false end) atoms
+                            then g else "") (pi_generics it))
+             (pi_body it) (pi_variants it) (pi_semi it).
+
+  Definition exposed_count (mx : pmod) : nat :=
+    fold_right (fun pit acc => (List.length (filter (fun g => negb (String.eqb g "")) (pi_generics (snd pit))) + acc)%nat)
+               O (all_items mx []).
+
+  (** least fixpoint, from "nothing exposed" upwards; every round is computed from the ORIGINAL items *)
+  Fixpoint expose (fuel : nat) (mx : pmod) : pmod :=
+    match fuel with
+    | O => mx
+    | S fuel' =>
+        let mx' := map_pitems (mask_item mx) m in
+        if Nat.eqb (exposed_count mx') (exposed_count mx) then mx else expose fuel' mx'
+    end.
+
+  Definition exposure : pmod :=
+    let none := map_pitems (fun it => mk_pitem (pi_attrs it) (pi_is_enum it) (pi_name it)
+                                               (map (fun _ => "") (pi_generics it))
+                                               (pi_body it) (pi_variants it) (pi_semi it)) m in
+    expose (S (exposed_count m)) none.
+
+  Definition mem_path (p : list string) (l : list (list string)) : bool := existsb (names_eqb p) l.
+
+  Definition byval_succ (mx : pmod) (p : list string) : list (list string) :=
+    match lookup_item m p with
+    | Some it => flat_map (fun a => match a with BVItem q => [q] | BVParam _ => [] end) (item_atoms mx it)
+    | None => []
+    end.
+
+  (** depth-first search with a grey stack and a black list; [None] = a cycle was found (or the fuel
+      ran out: the depth never exceeds the number of items) *)
+  Fixpoint sized_dfs (fuel : nat) (mx : pmod) (stack done : list (list string)) (v : list string)
+    : option (list (list string)) :=
+    match fuel with
+    | O => None
+    | S fuel' =>
+        if mem_path v done then Some done
+        else if mem_path v stack then None
+        else
+          match (fix go (ws : list (list string)) (done : list (list string)) : option (list (list string)) :=
+                   match ws with
+                   | [] => Some done
+                   | w :: ws' =>
+                       match sized_dfs fuel' mx (v :: stack) done w with
+                       | None => None
+                       | Some d => go ws' d
+                       end
+                   end) (byval_succ mx v) done with
+          | None => None
+          | Some d => Some (v :: d)
+          end
+    end.
+
+  Definition sizedb : bool :=
+    let items := all_items m [] in
+    let mx := exposure in
+    let fuel := S (S (List.length items)) in
+    match fold_left (fun acc pit =>
+                       match acc with
+                       | None => None
+                       | Some done => sized_dfs fuel mx [] done (fst pit)
+                       end) items (Some []) with
+    | Some _ => true
+    | None => false
+    end.
+End Sized.
+
 (** ** attributes *)
 Definition attr_is (name : string) (a : tokens) : bool :=
   match a with n :: _ => String.eqb n name | [] => false end.
@@ -155,6 +328,41 @@ Fixpoint key_of_tokens (t : tokens) : string :=
                        end
   | x :: [] => x
   | x :: r => String.append x (String.append " " (key_of_tokens r))
+  end.
+
+(** [quote!(#attr).to_string()] (proc-macro2's fallback printer) recomputed from the flattened tokens
+    of a WHOLE attribute [# [ ... ]]: tokens are separated by one space, except after an opening
+    [(] / [\[], before a closing [)] / [\]] and inside the joint pair [::].  (Other joint
+    punctuation - [->], [=>], lifetimes - is not distinguished by the flattening and would be
+    rendered with a space; the attribute pools of the generators contain none.)  This is the sort
+    key of derives.rs:236-241. *)
+Definition is_close_pb (t : string) : bool := String.eqb t ")" || String.eqb t "]".
+Definition is_open_pb (t : string) : bool := String.eqb t "(" || String.eqb t "[".
+Fixpoint render_tokens (t : tokens) : string :=
+  match t with
+  | [] => ""
+  | x :: r =>
+      match r with
+      | [] => x
+      | y :: r' =>
+          if is_close_pb y then String.append x (render_tokens r)
+          else if is_open_pb x then String.append x (render_tokens r)
+          else if String.eqb x ":" && String.eqb y ":" then
+            match r' with
+            | [] => "::"
+            | z :: _ => if is_close_pb z then String.append "::" (render_tokens r')
+                        else String.append ":: " (render_tokens r')
+            end
+          else String.append x (String.append " " (render_tokens r))
+      end
+  end.
+
+Definition attr_sort_key (inner : tokens) : string := render_tokens ("#" :: "[" :: inner ++ ["]"]).
+
+Fixpoint strictly_sorted (l : list string) : bool :=
+  match l with
+  | a :: ((b :: _) as l') => if str_ltb a b then strictly_sorted l' else false
+  | _ => true
   end.
 
 (** ** C01: wire-faithfulness, pair exploration with a visited list *)
